@@ -1891,6 +1891,8 @@ class tensor:
         if version == 2 or version is None:  # Calculate the new way
             d = self.ndims
             sz = self.shape[0]  # Sizes of all modes must be the same
+            if any(n != sz for n in self.shape) or skip_dim >= d:
+                assert False, "ttsv requires a cubical tensor and skip_dim < ndims"
 
             dnew = skip_dim + 1  # Number of modes in result
             drem = d - dnew  # Number of modes multiplied out
